@@ -17,7 +17,9 @@ use serde_json::{Value, json};
 use std::collections::{BTreeMap, HashMap};
 
 const KEYS: &[&str] = &["a", "b.txt", "dir/x", "dir/y", "deep/er/z", "k with space+é", "dir-old", "dir.bak/z"];
-const BUCKETS: &[&str] = &["hist-bucket-1", "hist-bucket-2", "hist-bucket-3"];
+// (names one of which continues another - also where the unpadded base64 of the shorter is a prefix of that of the longer,
+// which is how the side files of a bucket are named)
+const BUCKETS: &[&str] = &["hb1-more", "hb1", "hb1-more-x9y"];
 const ID1: (&str, &str) = ("AKIDHISTORY000000001", "historySecret1/abcdefghijklmnopqrstuvwxyz");
 const ID2: (&str, &str) = ("AKIDHISTORY000000002", "historySecret2/abcdefghijklmnopqrstuvwxyz");
 
